@@ -16,10 +16,19 @@ def parseMachineHex (h : String) : Except String Machine :=
     | none => throw "machine bytes do not decode in the model"
   | none => throw "bad hex"
 
-def parseTraceItem (w : String) : Option TraceLine :=
+def parseDir (d : String) : Option Dir :=
+  match d with
+  | "s" => some .s | "sn" => some .sn | "r" => some .r | "rn" => some .rn | "sp" => some .sp | "rp" => some .rp
+  | _ => none
+
+/-- `<ns>:<token>[+]` (the `+` marks a line with the optional size column, which the parser ignores) -/
+def parseTraceItem (w : String) : Option RawLine :=
   match w.splitOn ":" with
-  | [t, "s"] => t.toNat?.map (·, true)
-  | [t, "r"] => t.toNat?.map (·, false)
+  | [t, d] =>
+    let d := if d.endsWith "+" then (d.dropEnd 1).toString else d
+    match t.toNat?, parseDir d with
+    | some t, some d => some ⟨t, d⟩
+    | _, _ => none
   | _ => none
 
 def parseOptNat (s : String) : Option (Option Nat) :=
@@ -59,7 +68,7 @@ structure ParsedCase where
 def parseCase (c : CaseBlock) : Except String ParsedCase := do
   let mut mc : List Machine := []
   let mut ms : List Machine := []
-  let mut trace : List TraceLine := []
+  let mut trace : List RawLine := []
   let mut delay : Nat := 0
   for ws in c.header do
     match ws with
@@ -151,16 +160,20 @@ def runSig (r : ObsRun) (o : SimOut OState) : List String :=
 /-- features of the input trace (shape of the workload) -/
 def traceSig (c : CaseIn) : List String :=
   let f (b : Bool) (s : String) : List String := if b then [s] else []
-  let ts := c.trace.map (·.1)
-  let pairs := c.trace.zip (c.trace.drop 1)
-  let n := c.trace.length
+  let tl := normalLines c.trace
+  let ts := tl.map (·.1)
+  let pairs := tl.zip (tl.drop 1)
+  let n := tl.length
   f (n == 1) "n1" ++ f (n ≥ 2 && n ≤ 10) "nS" ++ f (n > 10 && n ≤ 30) "nM" ++ f (n > 30) "nL" ++
   f (pairs.any fun (a, b) => a.1 == b.1 && a.2 == b.2) "burst" ++
   f (pairs.any fun (a, b) => a.1 == b.1 && a.2 != b.2) "bothdir" ++
   f (pairs.any fun (a, b) => b.1 - a.1 ≥ 1000000000) "gap1s" ++
   f (pairs.any fun (a, b) => b.1 - a.1 > 0 && b.1 - a.1 ≤ 1000000) "gapSub1ms" ++
   f (ts.head?.getD 0 > 0) "t0pos" ++
-  f (c.trace.all (·.2)) "onlyS" ++ f (c.trace.all (!·.2)) "onlyR" ++
+  f (tl.all (·.2)) "onlyS" ++ f (tl.all (!·.2)) "onlyR" ++
+  f (c.trace.any fun l => l.dir == .sp || l.dir == .rp) "padlines" ++
+  f (c.trace.any fun l => l.dir == .sn || l.dir == .rn) "sn-rn" ++
+  f (tl.isEmpty) "noNormal" ++
   [s!"d{c.delay}"]
 
 def dedup (l : List String) : List String :=
